@@ -42,6 +42,7 @@ DEFINE = {
     'props-given-dynamic-default': 'import {{ defineComponent }} from "vue"; const defs: any = {{}}; export const A = defineComponent((props: {{ a?: string }} = defs) => () => null, {{ props: {{ a: String }} }});',
     'props-given-static-default': 'import {{ defineComponent, type SetupContext }} from "vue"; export const A = defineComponent((props: {{ a?: string }} = {{ a: "x" }}, ctx: SetupContext<(e: "x") => void>) => () => null, {{ props: {{ a: String }}, emits: ["x"] }});',
     'dynamic-default-spread-arg': 'import {{ defineComponent }} from "vue"; const defs: any = {{}}; const rest: any[] = []; export const A = defineComponent((props: {{ a?: number }} = defs) => () => null, ...rest);',
+    'nested-in-other-call': 'import {{ defineComponent }} from "vue"; declare const withInstall: any, registry: any; export const Button = withInstall(defineComponent(() => () => null)); const entry = registry.add("dialog", () => {{ return defineComponent(() => () => null) }}); const arr = [defineComponent(() => () => null)]; const Plain = defineComponent(() => () => null);',
     'with-jsx': 'import {{ defineComponent }} from "vue"; const C = defineComponent((props: {{ a: string }}) => () => <div>{{props.a}}</div>); const tail = () => <C a="x"/>;',
 }
 
